@@ -14,14 +14,16 @@ import warnings
 from ufl.argument import Argument
 from ufl.checks import is_cellwise_constant
 from ufl.coefficient import Coefficient
-from ufl.constantvalue import IntValue
+from ufl.constantvalue import RealValue
 from ufl.core.multiindex import FixedIndex
 from ufl.corealg.map_dag import map_expr_dags
 from ufl.corealg.multifunction import MultiFunction
 from ufl.domain import extract_domains, extract_unique_domain
 from ufl.form import Form
 from ufl.integral import Integral
+from ufl.pullback import SymmetricPullback
 from ufl.utils.indexflattening import flatten_multiindex, shape_to_strides
+from ufl.utils.sequences import product
 
 
 class SumDegreeEstimator(MultiFunction):
@@ -187,15 +189,25 @@ class SumDegreeEstimator(MultiFunction):
             if isinstance(op, Coefficient):
                 element = self.element_replace_map.get(element, element)
             sub_elements = element.sub_elements
-            if sub_elements and len(multiindex) == len(op.ufl_shape):
+            if (
+                sub_elements
+                and len(multiindex) == len(op.ufl_shape)
+                and not isinstance(element.pullback, SymmetricPullback)
+            ):
                 component = flatten_multiindex(
                     [int(idx) for idx in multiindex], shape_to_strides(op.ufl_shape)
                 )
                 # Walk the sub-elements in order to find which one covers
-                # this flattened component.
+                # this flattened component. The component refers to the
+                # physical value of the function, which may have more entries
+                # than the reference value (symmetric tensors, Piola maps
+                # on immersed manifolds).
+                domains = op.ufl_function_space().ufl_domain().iterable_like(element)
                 offset = 0
-                for sub_element in sub_elements:
-                    sub_size = sub_element.reference_value_size
+                for sub_element, domain in zip(sub_elements, domains):
+                    sub_size = product(
+                        sub_element.pullback.physical_value_shape(sub_element, domain)
+                    )
                     if component < offset + sub_size:
                         d = sub_element.embedded_superdegree
                         return self.default_degree if d is None else d
@@ -307,8 +319,9 @@ class SumDegreeEstimator(MultiFunction):
         """
         _f, g = v.ufl_operands
 
-        if isinstance(g, IntValue):
-            gi = g.value()
+        if isinstance(g, RealValue) and float(g.value()).is_integer():
+            # An integer exponent, also when written as a float (f**2.0)
+            gi = int(g.value())
             if gi >= 0:
                 if isinstance(a, int):
                     return a * gi
